@@ -9,7 +9,7 @@ use url::Url;
 use verif_harness::urlops::start_pool;
 use verif_harness::urlprops::prop_c02;
 use verif_harness::urlrec::*;
-use verif_harness::{hexs, parse_args, quiet_panics, unhexs, Args, Driver, Report, Rng};
+use verif_harness::{hexs, host_premise_pool, parse_args, quiet_panics, unhexs, Args, Driver, Report, Rng};
 
 #[allow(dead_code)]
 mod hist;
@@ -451,11 +451,38 @@ fn run_replay(args: &Args) -> Report {
     hist::run_replay(args)
 }
 
+/// Premise sampling (corr mode): C02's fixpoint theorems are relative to host hypotheses (HostRT: the text Display
+/// writes for a host that Host::parse returned parses back to it) which the correspondence cannot observe - host
+/// parsing and IDNA are answered by the real crates on both sides.  The premise is evaluated on the implementation
+/// for the fixed host premise pool: every URL that parses must be a fixpoint of re-parsing.  The classes of the
+/// open findings F-C10-1 (over-long Punycode label) and F-C12-1 (label decoding to xn--...) are skipped.
+fn premise_reparse(rep: &mut Report) {
+    let mut n = 0u64;
+    for h in host_premise_pool() {
+        for pre in ["http://", "ws://u:p@", "a://", "file://"] {
+            let s = format!("{}{}/p?q#f", pre, h);
+            if let Ok(u) = Url::parse(&s) {
+                if u.host_str().map_or(false, |t| t.len() > 2000 || t.contains("xn--xn--")) {
+                    continue;
+                }
+                n += 1;
+                let v = prop_c02(&u).unwrap_or_else(|| "fixpoint".into());
+                rep.case("premise-reparse", &format!("parse {}", hexs(&s)), "fixpoint", &v, true, if v == "fixpoint" { "premise:ok" } else { "premise:violated" });
+            }
+        }
+    }
+    rep.exhaustive.push(format!("premise-reparse: {} URLs over the fixed host premise pool are re-parse fixpoints on the implementation", n));
+}
+
 fn main() {
     quiet_panics();
     let args = parse_args();
     let rep = match args.mode.as_str() {
-        "corr" => merge(parse_streams(&args, false), guarded_hist(&args, false)),
+        "corr" => {
+            let mut r = merge(parse_streams(&args, false), guarded_hist(&args, false));
+            premise_reparse(&mut r);
+            r
+        }
         "search" => {
             let mut d = Report::new();
             directed_qpm(&mut d);
